@@ -321,8 +321,11 @@ int mon_pure(const mon_args_t *a) {
 
 /* ------------------------------------------------------------------ digest (C12) */
 int mon_digest(const mon_args_t *a) {
-  const op_t *sel[160];
-  int n = mon_select_ops(a, sel, 160);
+  const op_t *sel[160], *sel0[160];
+  int n0 = mon_select_ops(a, sel0, 160), n = 0;
+  /* the case list must be the same in every build: ops that only exist with OpenMP are C16's business */
+  for (int i = 0; i < n0; i++)
+    if (!(sel0[i]->flags & OPF_OMP)) sel[n++] = sel0[i];
   if (!n) hx_die("no operations selected");
   for (long idx = a->from; idx < a->to; idx++) {
     rng_t r;
@@ -330,6 +333,9 @@ int mon_digest(const mon_args_t *a) {
     const op_t *op = sel[idx % n];
     opcase_t c;
     hx_reset(idx);
+    /* generators aim at the regime boundaries of the small and of the host triple alternately,
+       independently of the build this engine was compiled for: inputs are identical everywhere */
+    gc_set((int)((idx / n) & 1));
     opcase_init(&c, op);
     op->gen(&c, &r, a->maxdim);
     opcase_place(&c, &r, 0);
@@ -338,10 +344,26 @@ int mon_digest(const mon_args_t *a) {
     opcase_check(&c); /* names the culprit: model comparison in this build */
     uint64_t dg = opcase_canon(&c);
     HX.nontrivial = c.nontrivial;
+    /* the same operands under other admissible tuning parameters */
+    for (int t = 0; t < a->reps; t++) {
+      rng_t rp;
+      mon_case_rng(&rp, a, t ? "reparam2" : "reparam1", idx);
+      opcase_t d;
+      opcase_clone_inputs(&d, &c);
+      if (op->reparam) op->reparam(&d, &rp);
+      opcase_place(&d, &rp, 0);
+      opcase_run(&d);
+      uint64_t d2 = opcase_canon(&d);
+      if (d2 != dg)
+        opcase_fail(&c, "param-dependent", "canonical output changes with the tuning parameters: ip=(%ld,%ld,%ld) vs (%ld,%ld,%ld)", c.ip[0], c.ip[1], c.ip[2],
+                    d.ip[0], d.ip[1], d.ip[2]);
+      opcase_cleanup(&d);
+    }
     hx_tag("digest=%016llx", (unsigned long long)dg);
     opcase_cleanup(&c);
     hx_end();
   }
+  gc_default();
   return 0;
 }
 
